@@ -84,7 +84,7 @@ func c17EndToEnd(c *vh.Ctx, calc, h2g string) {
 		}
 		cs.list = strings.TrimSpace(so)
 		for _, rg := range strings.Fields(cs.list) {
-			so, se, err := vh.RunTool(60*time.Second, dir, h2g, "-module", "batch", "-concurrent", "2", "-batch", p, "-lines", rg)
+			so, se, err := vh.RunTool(60*time.Second, dir, h2g, optionOrder(cs.nodes+len(cs.executed)+len(rg), []string{"-module", "batch"}, []string{"-concurrent", "2"}, []string{"-batch", p}, []string{"-lines", rg})...)
 			if err != nil {
 				cs.err = fmt.Sprintf("hermes2go -lines %s: %v %s", rg, err, se)
 				return
